@@ -271,7 +271,7 @@ type h2cStep struct {
 
 type caseH2CSeq struct {
 	Steps []h2cStep `json:"steps"`
-	Spare int       `json:"spare"` // spare capacity left behind the DST in the shared buffer
+	Spare int       `json:"spare"`        // spare capacity left behind the DST in the shared buffer
 	GC    bool      `json:"gc,omitempty"` // force a garbage collection between the calls (pools and caches are emptied)
 }
 
